@@ -18,6 +18,11 @@ claimed = {
    'Every vector of environment answers (injection delays, stalls of the Top/Bottom/Translation wires, translation and memory reply delay and order, flush cycle, restart delay) with <= 3 (quick) / <= 4 (thorough) non-default answers is executed; the monitor checks physical address = frame(PID,page)+offset, size/data/mask fidelity, destination module, exactly-once forward and response, original ID, payload, and flush discipline.',
    'Trusted: akita SerialEngine/Port; the monitor. Bounds: 3-5 accesses over 2 pages x 2 PIDs, width 1-2, flush at cycles 1-14; accesses do not cross pages; requester silent during a flush.',
    'DESIGN.md §4 C16', 'E1+E4'),
+ 'C17': (MC, 'exhaustive configuration lattice x stateless deviation-bounded exploration of arrival timings on the real component',
+   'Real simplebankedmemory.Comp under the real akita SerialEngine for every configuration in banks{1,2,4} x pipeline width{1,2} x depth{1,2} x stage latency{1,2} x post-buffer{1,2} x port buffer{1,4} x row tracking{off,(2^7,1),(2^7,3)} and 8 request sequences (RAW, WAW, WAR, masked, sub-range, two banks, row switch, same-row triple; 2-6 requests). '
+   'For each, every vector of arrival delays and response-wire stalls with <= 2 (quick) / <= 3 (thorough) non-default answers is executed; oracle = flat byte array applied in arrival order (read data, exactly one response each, final Storage contents).',
+   'Trusted: akita SerialEngine/Port/Storage; the flat reference. Accesses stay inside one 64 B interleave unit. Known finding (open): lane overtaking with pipeline width 2 comes from akita pipelining and is listed by signature; the row-miss reordering was repaired by a fix: commit.',
+   'DESIGN.md §4 C17', 'E1+E4'),
 }
 checks = []
 for p in props:
